@@ -84,7 +84,7 @@ func genC15Req(t *rapid.T) C15Req {
 	r.Status = rapid.SampledFrom(c15Statuses).Draw(t, "status")
 	r.TECase = r.Mode == "chunked" && rapid.IntRange(0, 3).Draw(t, "tecase") == 0
 	for i := rapid.IntRange(0, 2).Draw(t, "nrh"); i > 0; i-- {
-		r.RespHdrs = append(r.RespHdrs, [2]string{rapid.SampledFrom([]string{"X-Resp", "Content-Type", "X-Multi", "X-Multi"}).Draw(t, "rhn"), rapid.SampledFrom([]string{"a", "text/plain", "b c"}).Draw(t, "rhv")})
+		r.RespHdrs = append(r.RespHdrs, [2]string{rapid.SampledFrom([]string{"X-Resp", "Content-Type", "X-Multi", "X-Multi"}).Draw(t, "rhn"), rapid.SampledFrom([]string{"a", "text/plain", "b c", "100%", "/f%20g?x=%2F"}).Draw(t, "rhv")})
 	}
 	bodiless := r.Method == "HEAD" || r.Status == 204 || r.Status == 304
 	if !bodiless {
